@@ -55,6 +55,7 @@ type VC struct {
 	fldTags     map[string]int
 	memSorts    map[string]string
 	addrTerms   map[string]map[Term]*addrUse
+	quantKeys   map[string]bool
 	havocs      []havocEvent
 	closures    map[Term]*closureInfo
 	fnTerms     map[Term]*ssa.Function
@@ -178,6 +179,11 @@ func (vc *VC) newMemVersion(key string) Term {
 
 func (vc *VC) noteAddr(key string, a Term) {
 	if strings.Contains(a, "?") {
+		// address under a binder: this memory key needs quantified frame facts
+		if vc.quantKeys == nil {
+			vc.quantKeys = map[string]bool{}
+		}
+		vc.quantKeys[key] = true
 		return
 	}
 	m := vc.addrTerms[key]
@@ -316,6 +322,10 @@ func (vc *VC) reachKeys(t types.Type, out map[string]types.Type, seen map[string
 // finalizeFrames emits the ground frame instances for all havoc events.
 func (vc *VC) finalizeFrames() {
 	for _, h := range vc.havocs {
+		if vc.quantKeys[h.key] && h.pred != nil {
+			// quantified frame fact (the key is read at addresses under a binder)
+			vc.sc.Axiom(fmt.Sprintf("(forall ((?fa Ref)) (! (=> (not %s) (= (select %s ?fa) (select %s ?fa))) :pattern ((select %s ?fa))))", h.pred("?fa"), h.new, h.old, h.new))
+		}
 		addrs := vc.addrTerms[h.key]
 		var as []Term
 		for a := range addrs {
